@@ -94,6 +94,8 @@ def main():
             shutil.rmtree(dst)
         os.makedirs(dst)
         shutil.copy(src + "/patch.diff", dst + "/patch.diff")
+        if os.path.exists(src + "/bug_only.diff"):          # the slip alone, when patch.diff = refactored base + slip
+            shutil.copy(src + "/bug_only.diff", dst + "/bug_only.diff")
         shutil.copytree(src + "/demo", dst + "/demo")
         readme = open(src + "/README.md").read() if os.path.exists(src + "/README.md") else ""
         open(dst + "/README.md", "w").write(readme)
